@@ -114,6 +114,8 @@ type world struct {
 	busy      [nThreads]bool
 	maint     *parked
 	flushes   []*flushEv
+	gm        marker.GroupMarker
+	rid, gk   string // route id and group key of the one group of the case
 	incs      map[string]int
 	seen      int // flushes[:seen] have been reported
 	maintSeen bool
@@ -181,6 +183,16 @@ func (w *world) yield(point string) {
 // Exec is the notification stage: every flush of every aggregation group ends up here.
 func (w *world) Exec(ctx context.Context, _ *slog.Logger, alerts ...*alert.Alert) (context.Context, []*alert.Alert, error) {
 	id, _ := notify.AggrGroupID(ctx)
+	// this stage stands for a muted flush (TimeMuteStage inside a mute interval): it marks the group as muted and lets
+	// no alert through; the marker is what GET /alerts/groups reports
+	if rid, ok := notify.RouteID(ctx); ok {
+		if gk, ok := notify.GroupKey(ctx); ok {
+			w.gm.SetMuted(rid, gk, []string{"offhours"})
+			w.mu.Lock()
+			w.rid, w.gk = rid, gk
+			w.mu.Unlock()
+		}
+	}
 	ev := &flushEv{uuid: id, t: time.Now(), inc: -1}
 	for _, a := range alerts {
 		r := "0"
@@ -230,7 +242,8 @@ func (w *world) start(t *testing.T) {
 		t.Fatal(err)
 	}
 	route := dispatch.NewRoute(cfg.Route, nil)
-	w.disp = dispatch.NewDispatcher(w.alerts, route, w, marker.NewGroupMarker(), func(d time.Duration) time.Duration { return d },
+	w.gm = marker.NewGroupMarker()
+	w.disp = dispatch.NewDispatcher(w.alerts, route, w, w.gm, func(d time.Duration) time.Duration { return d },
 		maintInterval, nil, logger, eventrecorder.NopRecorder(), dispatch.NewDispatcherMetrics(false, reg, nil), nil)
 	dispatch.VerifYield = w.yield
 	go w.disp.Run(time.Now())
@@ -290,7 +303,17 @@ func (w *world) groups() string {
 		out = append(out, strings.Join(s, "."))
 	}
 	sort.Strings(out)
-	return hx.Join(out, ",")
+	// is the group reported as muted (the group marker, as the API reads it)?
+	flag := "u"
+	w.mu.Lock()
+	rid, gk := w.rid, w.gk
+	w.mu.Unlock()
+	if gk != "" {
+		if _, muted := w.gm.Muted(rid, gk); muted {
+			flag = "m"
+		}
+	}
+	return flag + "|" + hx.Join(out, ",")
 }
 
 func (w *world) anyNew() bool {
